@@ -1,5 +1,6 @@
 (* Properties_C15.v — C15: Expect: 100-continue is answered before the server waits for the body. *)
 From Via Require Import M_Char M_Encode M_Parse M_Receive M_Server P_Server.
+From Via Require Import M_Imp M_Query Gen_Parse P_Query.
 Local Open Scope N_scope.
 
 Theorem C15_at_most_one_continue_content_length : forall cfg rp v b,
@@ -24,3 +25,15 @@ Example C15_example_content_length :
 Proof. vm_compute. reflexivity. Qed.
 
 Print Assumptions C15_at_most_one_continue_content_length.
+
+(* ---- the tie to the source, as a theorem ----
+   The queries on a received request are translated from clang's AST on every run (translate/parse.py -> Gen_Parse.v,
+   terms of M_Query.v: functions of the request line as M_Imp expressions over its members; queries of the header block
+   as "which header, which token, what a hit means", their common frame - look up, false if empty, lower-case, search -
+   checked by the translator).  The model's decision is, for EVERY received request, the translated one. *)
+Theorem C15_expect_continue_is_the_source : forall q, rq_ev q rq_expect_continue_src = rq_expect_continue q.
+Proof. exact rq_expect_continue_is_the_source. Qed.
+Theorem C15_is_chunked_is_the_source : forall q, rq_ev q rq_is_chunked_src = hd_is_chunked (rq_headers q).
+Proof. exact rq_is_chunked_is_the_source. Qed.
+Print Assumptions C15_expect_continue_is_the_source.
+Print Assumptions C15_is_chunked_is_the_source.
